@@ -181,7 +181,7 @@ pub fn run(ctx: &Ctx) -> Report {
     });
     // wl 2: random instants x random offsets through from_timespec_and_local / from_timespec / from_total_nanoseconds
     let per = ctx.inner(500);
-    run_cases(ctx, &mut rep, 2, ctx.n(2000, 100_000), |l, rng, _| {
+    run_cases(ctx, &mut rep, 2, ctx.n(10_000, 300_000), |l, rng, _| {
         let mut n = 0;
         for _ in 0..per {
             let off = match rng.below(4) {
